@@ -82,10 +82,26 @@ Theorem C07_below_watermark_confirmed : forall rf log s,
   s < cr_watermark rf log -> wm_quorum rf <= nth (N.to_nat s) (cr_counts log) 0.
 Proof. exact below_watermark_confirmed. Qed.
 
+(** ---- the same on a RUNNING node: start-up on a log, then any sequence of confirmation reports (late, out of
+         order, duplicated, versions in the middle never confirmed): the watermark the reads are gated by is the
+         longest quorum prefix of the best count known per version, so everything below it reached quorum ---- *)
+Theorem C07_live_watermark_exact : forall rf log reports,
+  wm_is_prefix (wm_quorum rf) (wm_best (cr_live_reports log reports)) (cr_live_watermark rf log reports).
+Proof. exact live_watermark_exact. Qed.
+
+Theorem C07_live_below_watermark_confirmed : forall rf log reports s,
+  s < cr_live_watermark rf log reports -> wm_quorum rf <= wm_best (cr_live_reports log reports) (s + 1).
+Proof. exact live_below_watermark_confirmed. Qed.
+
 (** non-vacuity: the probe of the design (rf 3; counts [2,2],2,0,2; streams 0,0,0,1,0) *)
 Definition C07_probe : cr_log := [[(0, 2); (0, 2)]; [(0, 2)]; [(1, 0)]; [(0, 2)]].
 Example C07_example_watermark : cr_watermark 3 C07_probe = 3.
 Proof. vm_compute. reflexivity. Qed.
+Example C07_example_live :   (* all five events unconfirmed at start; the 4th transaction confirmed first, the 3rd never *)
+  cr_live_watermark 3 [[(0, 0); (0, 0)]; [(0, 0)]; [(1, 0)]; [(0, 0)]] (cr_confirm_reports 4 1 2 ++ cr_confirm_reports 0 2 3) = 2 /\
+  cr_live_watermark 3 [[(0, 0); (0, 0)]; [(0, 0)]; [(1, 0)]; [(0, 0)]]
+    (cr_confirm_reports 4 1 2 ++ cr_confirm_reports 0 2 3 ++ cr_confirm_reports 2 1 2 ++ cr_confirm_reports 0 2 2) = 3.
+Proof. vm_compute. split; reflexivity. Qed.
 Example C07_example_partition :
   partition_read (cr_partition_commits C07_probe 0) [] 3 0 None 100 = ([0; 1; 2], false) /\
   partition_read (cr_partition_commits C07_probe 1) [1; 1] 3 1 (Some 1) 100 = ([1], true).
@@ -110,3 +126,5 @@ Print Assumptions C07_read_event_gated.
 Print Assumptions C07_read_event_complete.
 Print Assumptions C07_partition_sequence_exact.
 Print Assumptions C07_below_watermark_confirmed.
+Print Assumptions C07_live_watermark_exact.
+Print Assumptions C07_live_below_watermark_confirmed.
